@@ -245,6 +245,8 @@ def kani_cmd(h, extra=(), with_playback=False):
     if h.get("features"):
         cmd += ["--features", ",".join(h["features"])]
     cmd += list(h.get("kani_args", []))
+    if os.environ.get("VERIF_COMPILE_ONLY"):
+        cmd += ["--only-codegen"]
     cmd += list(extra)
     return cmd
 
@@ -507,6 +509,8 @@ def main(argv):
             keep = True
         elif a == "--jobs":
             jobs = int(argv[i + 1]); i += 1
+        elif a == "--compile-only":
+            os.environ["VERIF_COMPILE_ONLY"] = "1"
         elif a == "--replay":
             replay = argv[i + 1]; i += 1
         i += 1
